@@ -92,8 +92,24 @@ class InMemoryMessageBroker(MessageBrokerT):
         params: ParametersT | None = None,
     ) -> None:
         logger.debug("Requeueing message with id: {id_}.", extra={"id_": key.id_})
-        await self.ack(key)
-        await self.enqueue(key, payload, params)
+        await asyncio.sleep(0)
+
+        # replace the message in one step, so that a cancellation can't lose it in between
+        q = self.queues[key.queue]
+        for msg in q.processing:
+            if msg.key.id_ == key.id_:
+                q.processing.remove(msg)
+                break
+
+        delay: datetime | None = wait_until(params)
+
+        msg = Message(key, payload, params or self.PARAMETERS_CLASS())
+        if delay is not None:
+            q.delayed.setdefault(delay, []).append(msg)
+        else:
+            q.simple.put_nowait(msg)
+
+        await asyncio.sleep(0)
 
     async def queue_declare(self, queue_name: str) -> None:
         logger.debug("Declaring queue '{queue_name}'.", extra={"queue_name": queue_name})
